@@ -104,6 +104,11 @@ def check(spec):
             **flags(ops, case),
         )
         loose = False
+        if (envp.used_other or envp.used_root) and not case.unique_index and any(o["op"] == "filter" for o in ops):
+            # pandas aligns two NON-identical indexes with duplicate labels by a join (cartesian product per
+            # label) but two identical ones positionally; whether they are identical is a whole-frame fact
+            # (a filter removed a row somewhere), so partition-wise evaluation cannot and need not match
+            raise Reject("alignment of non-identical indexes with duplicate labels")
         if envp.used_other:
             unknown = (not case.known_div) or any(n.get("e") == "other" and n.get("unknown") for n in D.walk(ops))
             if unknown and not case.unique_index:
